@@ -17,13 +17,13 @@ for d in sorted(glob.glob(S + '/C*-*')):
             am = {}
     conf = json.load(open(d + '/confirm.json')) if os.path.exists(d + '/confirm.json') else {}
     r = R.get(sid, {})
-    rnd = 4 if sid[-1] in 'GH' else 3 if sid[-1] in 'EF' else 2 if sid[-1] in 'CD' else 1
+    rnd = 5 if sid[-1] in 'IJ' else 4 if sid[-1] in 'GH' else 3 if sid[-1] in 'EF' else 2 if sid[-1] in 'CD' else 1
     meta = {
         "id": sid,
         "property": r.get("own", sid.split('-')[0]),
         "author": "independent sub-agent given only the property text%s and a scratch worktree (round %d)" % (
             "" if rnd == 1 else " plus one-sentence summaries of the %d earlier changes for that property (to avoid duplicates%s)" % (
-                2 * (rnd - 1), "; asked for a change that needs a rare combination" if rnd == 3 else "; asked for a routine-maintenance slip (data-structure / integer-type / iterator / string-API / chrono / serde migration)" if rnd == 4 else ""), rnd),
+                min(8, 2 * (rnd - 1)), "; asked for a change that needs a rare combination" if rnd == 3 else "; asked for a routine-maintenance slip (data-structure / integer-type / iterator / string-API / chrono / serde migration)" if rnd == 4 else "; asked for two cooperating sites that each look fine alone, a multi-step sequence of operations, or an input at the interaction of two features" if rnd == 5 else ""), rnd),
         "summary": am.get("summary"),
         "needs_to_manifest": am.get("needs_to_manifest"),
         "example_failing_input": am.get("example_failing_input"),
